@@ -924,7 +924,7 @@ func unop(fr *frame, instr *ssa.UnOp, x value) value {
 // typeAssert checks whether dynamic type of itf is instr.AssertedType.
 // It returns the extracted value on success, and panics on failure,
 // unless instr.CommaOk, in which case it always returns a "value,ok" tuple.
-func typeAssert(instr *ssa.TypeAssert, itf iface) value {
+func typeAssert(i *interpreter, instr *ssa.TypeAssert, itf iface) value {
 	var v value
 	err := ""
 	if itf.t == nil {
@@ -932,7 +932,16 @@ func typeAssert(instr *ssa.TypeAssert, itf iface) value {
 
 	} else if idst, ok := instr.AssertedType.Underlying().(*types.Interface); ok {
 		v = itf
-		err = checkInterface(idst, itf)
+		k := ifaceKey{idst, itf.t}
+		if e, ok := i.ifaceCache[k]; ok {
+			err = e
+		} else {
+			err = checkInterface(idst, itf)
+			if i.ifaceCache == nil {
+				i.ifaceCache = map[ifaceKey]string{}
+			}
+			i.ifaceCache[k] = err
+		}
 
 	} else if types.Identical(itf.t, instr.AssertedType) {
 		v = itf.v // extract value
